@@ -282,6 +282,26 @@ def _lint_oracle_roots(doc) -> list:
     return roots
 
 
+def check_translated_http(run: lib.Run, audit: dict) -> None:
+    """tie by regeneration, the HTTP delivery path (fixed finding F20): `HTTPPolicySource.load` as written now, translated into Lean (plugin
+    src_translation_http, shared with C10), is proved to take the response's own `.json()` fast path only when `_detect_format(filename=url,
+    content_type=ct) == "json"` and otherwise to hand the body to `parse_policy_text(…, filename=url, content_type=ct)`
+    (`http_load_parser_hints`, `http_load_parser_filename` in Run/C10_http_translated.lean).  The comparison of the translation with CPython is
+    C10's (harness/http_tr.py); the delivery paths × documents of this check are the search for a failing input."""
+    import http_tr
+    tr = audit["facts"].get("translated_http")
+    failed_extraction = tr.get("extraction_failed") if isinstance(tr, dict) else "no facts"
+    ok, detail = lib.run_obligation("C10_http_translated")
+    run.obligation(http_tr.OBLIGATION_C17, ok, "discharged" if ok else (str(failed_extraction) if failed_extraction else detail))
+    if not ok:
+        path = run.write_replay("obligation_http", {"what": "per-run obligation Rbacx/Run/C10_http_translated.lean no longer checks: the translated source of "
+                                                    "HTTPPolicySource.load is not proved to honour the parser hints (http_load_parser_hints; fixed "
+                                                    "finding F20) — the HTTP delivery paths of this run (documents as JSON and YAML through the faked "
+                                                    "HTTP source, against the file / text paths) are the search for a failing input",
+                                                    "extraction": failed_extraction, "lean": detail[-1500:]})
+        run.extra.setdefault("translated_obligation_replay", path)
+
+
 def check_translated_lint(run: lib.Run, audit: dict, violations: list) -> None:
     """tie by regeneration: `analyze_policy` (its first pass and the helpers `_actions` / `_resource_covers` / `_first_applicable_unreachable` as
     parameters) and `analyze_policyset` of dsl/lint.py as written now, translated into Lean (plugin src_translation_lint), are proved equal
@@ -884,6 +904,7 @@ def check(run: lib.Run, audit: dict) -> int:
     check_translated_cli(run, audit, violations)
     check_translated_lint(run, audit, violations)
     check_translated_schema(run, audit)
+    check_translated_http(run, audit)
     check_detect(run)
     check_paths_and_tools(run, audit)
     if not run.spec_failures:
